@@ -226,4 +226,427 @@ theorem inv_init (A : Arith) (p : Params) (h : 0 ≤ p.burst) : Inv A p State.in
   show (0 : Rat) ≤ (p.burst : Rat)
   exact burst_nonneg' h
 
+
+/-! ### `advance` -/
+
+def advLast (s : State) (now : Rat) : Rat := if now < s.last then now else s.last
+def advMaxEl (A : Arith) (p : Params) (s : State) : Rat := A.tr (((p.burst : Rat) - s.tokens) * Ki p)
+def advEl (A : Arith) (p : Params) (s : State) (now : Rat) : Rat :=
+  if A.sat (now - advLast s now) > advMaxEl A p s then advMaxEl A p s else A.sat (now - advLast s now)
+def advTok (A : Arith) (p : Params) (s : State) (now : Rat) : Rat :=
+  if s.tokens + advEl A p s now * K p > (p.burst : Rat) then (p.burst : Rat) else s.tokens + advEl A p s now * K p
+
+theorem advance_eq (A : Arith) (p : Params) (s : State) (now : Rat) :
+    advance A p s now = (advLast s now, advTok A p s now) := by
+  unfold advance advTok advEl advMaxEl advLast
+  simp only [dft_eq, tfd_eq]
+
+theorem advLast_le (s : State) (now : Rat) : advLast s now ≤ now := by
+  unfold advLast; split <;> grind
+
+theorem advLast_of_le {s : State} {now : Rat} (h : s.last ≤ now) : advLast s now = s.last := by
+  unfold advLast
+  have : ¬ now < s.last := by grind
+  simp [this]
+
+section
+set_option linter.unusedSectionVars false
+set_option linter.unusedVariables false
+variable {A : Arith} {q D : Rat} (hA : ArithOK A q D) {p : Params} (hV : Valid p q D)
+include hA hV
+
+theorem advMaxEl_nonneg {s : State} (hI : Inv A p s) : 0 ≤ advMaxEl A p s :=
+  hA.tr_nonneg _ (mul_Ki_nonneg hV.limit_pos (by have := hI.1; grind))
+
+theorem advMaxEl_mul_K_le {s : State} (hI : Inv A p s) : advMaxEl A p s * K p ≤ (p.burst : Rat) - s.tokens := by
+  have h0 : 0 ≤ ((p.burst : Rat) - s.tokens) * Ki p := mul_Ki_nonneg hV.limit_pos (by have := hI.1; grind)
+  have h1 := mul_le_mul_K hV.limit_pos (hA.tr_le _ h0)
+  rw [mul_Ki_mul_K hV.limit_pos] at h1
+  exact h1
+
+theorem advMaxEl_le_D {s : State} (hI : Inv A p s) : advMaxEl A p s ≤ D := by
+  have h0 : 0 ≤ ((p.burst : Rat) - s.tokens) * Ki p := mul_Ki_nonneg hV.limit_pos (by have := hI.1; grind)
+  have h1 := hA.tr_le _ h0
+  have h2 := waitOK_lower hA hV.limit_pos hI.2
+  -- (B - tokens)·Ki ≤ (B + q·K)·Ki = B·Ki + q
+  have h3 : ((p.burst : Rat) - s.tokens) * Ki p ≤ ((p.burst : Rat) + q * K p) * Ki p :=
+    mul_le_mul_Ki hV.limit_pos (by grind)
+  have h4 : ((p.burst : Rat) + q * K p) * Ki p = (p.burst : Rat) * Ki p + q := by
+    have := Ki_mul_K hV.limit_pos
+    have h5 : q * K p * Ki p = q * (Ki p * K p) := by grind
+    have h6 : ((p.burst : Rat) + q * K p) * Ki p = (p.burst : Rat) * Ki p + q * K p * Ki p := by grind
+    rw [h6, h5, this]; grind
+  have := hV.refill_fits
+  unfold advMaxEl
+  grind
+
+theorem advEl_nonneg {s : State} (hI : Inv A p s) (now : Rat) : 0 ≤ advEl A p s now := by
+  unfold advEl
+  have h1 := advMaxEl_nonneg hA hV hI
+  have h2 := hA.sat_nonneg (now - advLast s now) (by have := advLast_le s now; grind)
+  split <;> assumption
+
+theorem advEl_le_maxEl {s : State} (now : Rat) : advEl A p s now ≤ advMaxEl A p s := by
+  unfold advEl
+  split <;> grind
+
+theorem advEl_le_elapsed {s : State} (hI : Inv A p s) (now : Rat) : advEl A p s now ≤ now - advLast s now := by
+  unfold advEl
+  have h2 := hA.sat_le (now - advLast s now) (by have := advLast_le s now; grind)
+  split <;> grind
+
+/-- `advance` never yields more than `burst` -/
+theorem advTok_le_burst (s : State) (now : Rat) : advTok A p s now ≤ (p.burst : Rat) := by
+  unfold advTok; split <;> grind
+
+/-- time only adds tokens -/
+theorem le_advTok {s : State} (hI : Inv A p s) (now : Rat) : s.tokens ≤ advTok A p s now := by
+  unfold advTok
+  have h1 := mul_K_nonneg hV.limit_pos (advEl_nonneg hA hV hI now)
+  have := hI.1
+  split <;> grind
+
+/-- ... and at most `qps · elapsed` -/
+theorem advTok_le_refill {s : State} (hI : Inv A p s) {now : Rat} (h : s.last ≤ now) :
+    advTok A p s now ≤ s.tokens + (now - s.last) * K p := by
+  have h1 := advEl_le_elapsed hA hV hI now
+  rw [advLast_of_le h] at h1
+  have h2 := mul_le_mul_K hV.limit_pos h1
+  unfold advTok
+  have := hI.1
+  have h3 := mul_K_nonneg hV.limit_pos (advEl_nonneg hA hV hI now)
+  split <;> grind
+
+theorem advTok_waitOK {s : State} (hI : Inv A p s) (now : Rat) : waitOK A p (advTok A p s now) :=
+  waitOK_mono hA hV.limit_pos (le_advTok hA hV hI now) hI.2
+
+end
+
+
+/-! ### `allow` (= `reserveN now 1 0`) -/
+
+theorem allow_admit (A : Arith) (p : Params) (s : State) (now : Rat)
+    (hb : 1 ≤ p.burst) (hw : waitOK A p (advTok A p s now - 1)) :
+    allow A p s now = (true, { tokens := advTok A p s now - 1, last := now }) := by
+  unfold allow reserveN
+  rw [advance_eq]
+  have h1 : (((1 : Int) : Rat)) = 1 := by simp
+  simp only [h1]
+  unfold waitOK at hw
+  simp [hb, hw]
+
+theorem allow_refuse (A : Arith) (p : Params) (s : State) (now : Rat)
+    (h : ¬ (1 ≤ p.burst ∧ waitOK A p (advTok A p s now - 1))) :
+    allow A p s now = (false, { tokens := s.tokens, last := advLast s now }) := by
+  unfold allow reserveN
+  rw [advance_eq]
+  have h1 : (((1 : Int) : Rat)) = 1 := by simp
+  simp only [h1]
+  unfold waitOK at h
+  by_cases hb : 1 ≤ p.burst
+  · have hw : ¬ ((if advTok A p s now - 1 < 0 then durationFromTokens A p (-(advTok A p s now - 1)) else 0) ≤ 0) :=
+      fun hw => h ⟨hb, hw⟩
+    simp [hw]
+  · simp [hb]
+
+/-- the three things that can happen in one call -/
+theorem allow_cases (A : Arith) (p : Params) (s : State) (now : Rat) :
+    (1 ≤ p.burst ∧ waitOK A p (advTok A p s now - 1) ∧
+      allow A p s now = (true, { tokens := advTok A p s now - 1, last := now })) ∨
+    (allow A p s now = (false, { tokens := s.tokens, last := advLast s now })) := by
+  by_cases h : 1 ≤ p.burst ∧ waitOK A p (advTok A p s now - 1)
+  · exact Or.inl ⟨h.1, h.2, allow_admit A p s now h.1 h.2⟩
+  · exact Or.inr (allow_refuse A p s now h)
+
+theorem state_eta (s : State) : ({ tokens := s.tokens, last := s.last } : State) = s := by
+  cases s; rfl
+
+section
+set_option linter.unusedSectionVars false
+set_option linter.unusedVariables false
+variable {A : Arith} {q D : Rat} (hA : ArithOK A q D) {p : Params} (hV : Valid p q D)
+include hA hV
+
+/-- the invariant is preserved by every call, whatever the timestamp -/
+theorem allow_inv {s : State} (hI : Inv A p s) (now : Rat) : Inv A p (allow A p s now).2 := by
+  rcases allow_cases A p s now with ⟨_, hw, he⟩ | he
+  · rw [he]
+    refine ⟨?_, hw⟩
+    have := advTok_le_burst hA hV s now
+    show advTok A p s now - 1 ≤ (p.burst : Rat)
+    grind
+  · rw [he]; exact hI
+
+end
+
+/-! ### traces -/
+
+/-- the events of a run: `(clock reading, admitted)` -/
+def trace (A : Arith) (p : Params) : State → List Rat → List Event
+  | _, [] => []
+  | s, now :: rest => (now, (allow A p s now).1) :: trace A p (allow A p s now).2 rest
+
+theorem trace_eq_zip (A : Arith) (p : Params) (s : State) (nows : List Rat) :
+    trace A p s nows = nows.zip (run A p s nows).1 := by
+  induction nows generalizing s with
+  | nil => simp [trace, run]
+  | cons now rest ih => simp [trace, run, ih]
+
+/-- non-decreasing, starting at or after `a` -/
+def sortedFrom : Rat → List Rat → Prop
+  | _, [] => True
+  | a, b :: r => a ≤ b ∧ sortedFrom b r
+
+theorem sortedFrom_mono {a a' : Rat} (h : a' ≤ a) : ∀ {l : List Rat}, sortedFrom a l → sortedFrom a' l
+  | [], _ => trivial
+  | _ :: _, ⟨h1, h2⟩ => ⟨Rat.le_trans h h1, h2⟩
+
+/-- admitted events up to `t1` -/
+def countLe (t1 : Rat) : List Event → Nat
+  | [] => 0
+  | e :: r => (if e.2 = true ∧ e.1 ≤ t1 then 1 else 0) + countLe t1 r
+
+theorem countIn_le_countLe (t0 t1 : Rat) (ev : List Event) : countIn t0 t1 ev ≤ countLe t1 ev := by
+  induction ev with
+  | nil => simp [countIn, countLe]
+  | cons e r ih =>
+    simp only [countIn, countLe]
+    by_cases h : e.2 = true ∧ t0 ≤ e.1 ∧ e.1 ≤ t1
+    · have : e.2 = true ∧ e.1 ≤ t1 := ⟨h.1, h.2.2⟩
+      simp [h]; omega
+    · simp only [h, if_false]
+      split <;> omega
+
+theorem countLe_zero_of_gt (A : Arith) (p : Params) (t1 : Rat) :
+    ∀ (nows : List Rat) (s : State) (a : Rat), t1 < a → sortedFrom a nows → countLe t1 (trace A p s nows) = 0
+  | [], _, _, _, _ => rfl
+  | now :: rest, s, a, h, hs => by
+    have h1 : t1 < now := by have := hs.1; grind
+    have h2 : ¬ now ≤ t1 := by grind
+    simp only [trace, countLe]
+    rw [countLe_zero_of_gt A p t1 rest _ now h1 hs.2]
+    simp [h2]
+
+theorem countIn_zero_of_gt (A : Arith) (p : Params) (t0 t1 : Rat)
+    (nows : List Rat) (s : State) (a : Rat) (h : t1 < a) (hs : sortedFrom a nows) :
+    countIn t0 t1 (trace A p s nows) = 0 := by
+  have := countIn_le_countLe t0 t1 (trace A p s nows)
+  rw [countLe_zero_of_gt A p t1 nows s a h hs] at this
+  omega
+
+
+/-! ### upper bound -/
+
+section
+set_option linter.unusedSectionVars false
+set_option linter.unusedVariables false
+variable {A : Arith} {q D : Rat} (hA : ArithOK A q D) {p : Params} (hV : Valid p q D)
+include hA hV
+
+/-- potential argument: from a state whose clock is at `s.last ≤ t1`, the calls up to `t1` admit at most
+    what is in the bucket, plus what `t1 - s.last` refills, plus the forgiven deficit. -/
+theorem countLe_bound (t1 : Rat) :
+    ∀ (nows : List Rat) (s : State), Inv A p s → sortedFrom s.last nows → s.last ≤ t1 →
+      (countLe t1 (trace A p s nows) : Rat) ≤ s.tokens + q * K p + (t1 - s.last) * K p
+  | [], s, hI, _, hle => by
+    have h1 := waitOK_lower hA hV.limit_pos hI.2
+    have h2 := mul_K_nonneg hV.limit_pos (a := t1 - s.last) (by grind)
+    simp only [trace, countLe]
+    have : ((0 : Nat) : Rat) = 0 := by simp
+    rw [this]; grind
+  | now :: rest, s, hI, hs, hle => by
+    have hnow : s.last ≤ now := hs.1
+    by_cases hgt : t1 < now
+    · -- this call and all later ones are after t1
+      have h0 : countLe t1 (trace A p s (now :: rest)) = 0 :=
+        countLe_zero_of_gt A p t1 (now :: rest) s now hgt ⟨Rat.le_refl, hs.2⟩
+      rw [h0]
+      have h1 := waitOK_lower hA hV.limit_pos hI.2
+      have h2 := mul_K_nonneg hV.limit_pos (a := t1 - s.last) (by grind)
+      have : ((0 : Nat) : Rat) = 0 := by simp
+      rw [this]; grind
+    · have hle1 : now ≤ t1 := by grind
+      rcases allow_cases A p s now with ⟨_, hw, he⟩ | he
+      · -- admitted
+        have hI' : Inv A p (allow A p s now).2 := allow_inv hA hV hI now
+        have ih := countLe_bound t1 rest (allow A p s now).2 hI' (by rw [he]; exact hs.2) (by rw [he]; exact hle1)
+        simp only [trace, countLe]
+        rw [he] at ih ⊢
+        simp only [hle1, and_self, if_true] at ih ⊢
+        have h3 := advTok_le_refill hA hV hI hnow
+        have h4 : (t1 - now) * K p + (now - s.last) * K p = (t1 - s.last) * K p := by grind
+        have : ((1 + countLe t1 (trace A p { tokens := advTok A p s now - 1, last := now } rest) : Nat) : Rat)
+            = 1 + (countLe t1 (trace A p { tokens := advTok A p s now - 1, last := now } rest) : Rat) := by
+          simp [Rat.natCast_add]
+        rw [this]
+        grind
+      · -- refused: the state is unchanged
+        have hst : (allow A p s now).2 = s := by
+          rw [he]; show ({ tokens := s.tokens, last := advLast s now } : State) = s
+          rw [advLast_of_le hnow]
+        have ih := countLe_bound t1 rest s hI (sortedFrom_mono hnow hs.2) hle
+        simp only [trace, countLe]
+        rw [hst]
+        rw [he]
+        simpa using ih
+
+/-- **every window**: the calls with clock reading in `[t0, t1]` admit at most `burst + qps·(t1 - t0)` plus
+    the forgiven deficit (`q` nanoseconds' worth). -/
+theorem countIn_bound (t0 t1 : Rat) (h01 : t0 ≤ t1) :
+    ∀ (nows : List Rat) (s : State), Inv A p s → sortedFrom s.last nows →
+      (countIn t0 t1 (trace A p s nows) : Rat) ≤ (p.burst : Rat) + q * K p + (t1 - t0) * K p
+  | [], s, _, _ => by
+    have h1 := burst_nonneg' hV.burst_nonneg
+    have h2 := mul_K_nonneg hV.limit_pos hA.q_nonneg
+    have h3 := mul_K_nonneg hV.limit_pos (a := t1 - t0) (by grind)
+    simp only [trace, countIn]
+    have : ((0 : Nat) : Rat) = 0 := by simp
+    rw [this]; grind
+  | now :: rest, s, hI, hs => by
+    have hnow : s.last ≤ now := hs.1
+    have hI' : Inv A p (allow A p s now).2 := allow_inv hA hV hI now
+    have hB := burst_nonneg' hV.burst_nonneg
+    have hq := mul_K_nonneg hV.limit_pos hA.q_nonneg
+    have hT := mul_K_nonneg hV.limit_pos (a := t1 - t0) (by grind)
+    by_cases hgt : t1 < now
+    · have h0 : countIn t0 t1 (trace A p s (now :: rest)) = 0 :=
+        countIn_zero_of_gt A p t0 t1 (now :: rest) s now hgt ⟨Rat.le_refl, hs.2⟩
+      rw [h0]
+      have : ((0 : Nat) : Rat) = 0 := by simp
+      rw [this]; grind
+    · have hle1 : now ≤ t1 := by grind
+      rcases allow_cases A p s now with ⟨_, hw, he⟩ | he
+      · -- admitted
+        by_cases hlt : now < t0
+        · -- before the window: not counted
+          have ih := countIn_bound t0 t1 h01 rest (allow A p s now).2 hI' (by rw [he]; exact hs.2)
+          simp only [trace, countIn]
+          have : ¬ (t0 ≤ now) := by grind
+          simp only [this, false_and, and_false, if_false]
+          simpa using ih
+        · have hge : t0 ≤ now := by grind
+          have h1 := countLe_bound hA hV t1 rest (allow A p s now).2 hI' (by rw [he]; exact hs.2) (by rw [he]; exact hle1)
+          have h2 := countIn_le_countLe t0 t1 (trace A p (allow A p s now).2 rest)
+          have h2' : (countIn t0 t1 (trace A p (allow A p s now).2 rest) : Rat)
+              ≤ (countLe t1 (trace A p (allow A p s now).2 rest) : Rat) := by exact_mod_cast h2
+          simp only [trace, countIn]
+          rw [he] at h1 h2' ⊢
+          simp only [hge, hle1, and_self, if_true] at h1 ⊢
+          have h3 := advTok_le_burst hA hV s now
+          have h4 : (t1 - now) * K p ≤ (t1 - t0) * K p := mul_le_mul_K hV.limit_pos (by grind)
+          have : ((1 + countIn t0 t1 (trace A p { tokens := advTok A p s now - 1, last := now } rest) : Nat) : Rat)
+              = 1 + (countIn t0 t1 (trace A p { tokens := advTok A p s now - 1, last := now } rest) : Rat) := by
+            simp [Rat.natCast_add]
+          rw [this]
+          grind
+      · -- refused
+        have hst : (allow A p s now).2 = s := by
+          rw [he]; show ({ tokens := s.tokens, last := advLast s now } : State) = s
+          rw [advLast_of_le hnow]
+        have ih := countIn_bound t0 t1 h01 rest s hI (sortedFrom_mono hnow hs.2)
+        simp only [trace, countIn]
+        rw [hst]
+        rw [he]
+        simpa using ih
+
+end
+
+
+/-! ### lower bound -/
+
+section
+set_option linter.unusedSectionVars false
+set_option linter.unusedVariables false
+variable {A : Arith} {q D : Rat} (hA : ArithOK A q D) {p : Params} (hV : Valid p q D)
+include hA hV
+
+/-- if the level reached by `advance` is enough for `m` more tokens, the next `m` calls are admitted
+    (whatever their timestamps) -/
+theorem refusedAmong_zero : ∀ (m : Nat) (nows : List Rat) (s : State), Inv A p s → (m : Rat) ≤ (p.burst : Rat) →
+    (∀ now rest, nows = now :: rest → waitOK A p (advTok A p s now - (m : Rat))) →
+    refusedAmong m (trace A p s nows) = 0
+  | 0, _, _, _, _, _ => by simp [refusedAmong]
+  | m + 1, [], _, _, _, _ => by simp [trace, refusedAmong]
+  | m + 1, now :: rest, s, hI, hm, h => by
+    have hcast : ((m + 1 : Nat) : Rat) = (m : Rat) + 1 := by simp [Rat.natCast_add]
+    have hm0 : (0 : Rat) ≤ (m : Rat) := by
+      have : (0 : Nat) ≤ m := Nat.zero_le m
+      exact_mod_cast this
+    have hw := h now rest rfl
+    rw [hcast] at hw hm
+    have hb : 1 ≤ p.burst := by
+      have : ((1 : Int) : Rat) ≤ (p.burst : Rat) := by simp; grind
+      exact_mod_cast this
+    have hw1 : waitOK A p (advTok A p s now - 1) := waitOK_mono hA hV.limit_pos (by grind) hw
+    have he := allow_admit A p s now hb hw1
+    have hI' : Inv A p (allow A p s now).2 := allow_inv hA hV hI now
+    simp only [trace, refusedAmong]
+    rw [he] at hI' ⊢
+    have ih := refusedAmong_zero m rest { tokens := advTok A p s now - 1, last := now } hI' (by grind)
+      (by
+        intro now2 rest2 _
+        have h1 := le_advTok hA hV hI' now2
+        have h1' : advTok A p s now - 1 ≤ advTok A p { tokens := advTok A p s now - 1, last := now } now2 := h1
+        exact waitOK_mono hA hV.limit_pos (by grind) hw)
+    simp [ih]
+
+theorem advEl_cases {s : State} (hI : Inv A p s) {now : Rat} (h : s.last ≤ now) :
+    advEl A p s now = advMaxEl A p s ∨ advEl A p s now = now - s.last := by
+  have hx : 0 ≤ now - s.last := by grind
+  have hm := advMaxEl_le_D hA hV hI
+  unfold advEl
+  rw [advLast_of_le h]
+  by_cases hD : now - s.last ≤ D
+  · rw [hA.sat_id _ hx hD]
+    split
+    · exact Or.inl rfl
+    · exact Or.inr rfl
+  · have h1 := hA.sat_ge (now - s.last) (by grind)
+    split
+    · exact Or.inl rfl
+    · left; grind
+
+/-- after `now - s.last` of idleness the level reached covers `k` tokens, for every `k ≤ burst`, `k ≤ qps·idle` -/
+theorem idle_level {s : State} (hI : Inv A p s) {now : Rat} (h : s.last ≤ now) {k : Rat}
+    (hk0 : 0 ≤ k) (hkB : k ≤ (p.burst : Rat)) (hkT : k ≤ (now - s.last) * K p) :
+    waitOK A p (advTok A p s now - k) := by
+  have hL := hV.limit_pos
+  have hcap := advMaxEl_mul_K_le hA hV hI
+  rcases advEl_cases hA hV hI h with he | he
+  · -- refilled to the brim (up to what truncation drops)
+    have htok : advTok A p s now = s.tokens + advMaxEl A p s * K p := by
+      unfold advTok; rw [he]
+      have : ¬ (s.tokens + advMaxEl A p s * K p > (p.burst : Rat)) := by grind
+      simp [this]
+    rw [htok]
+    -- need = (B - tokens)·Ki, ρ = need - tr need
+    have hneed : 0 ≤ ((p.burst : Rat) - s.tokens) * Ki p := mul_Ki_nonneg hL (by have := hI.1; grind)
+    have hres := hA.tr_resid _ hneed
+    have hle := hA.tr_le _ hneed
+    have hρK : (((p.burst : Rat) - s.tokens) * Ki p - advMaxEl A p s) * K p
+        = ((p.burst : Rat) - s.tokens) - advMaxEl A p s * K p := by
+      have := mul_Ki_mul_K hL ((p.burst : Rat) - s.tokens)
+      grind
+    have hw : waitOK A p (-((((p.burst : Rat) - s.tokens) * Ki p - advMaxEl A p s) * K p)) := by
+      by_cases h0 : 0 ≤ -((((p.burst : Rat) - s.tokens) * Ki p - advMaxEl A p s) * K p)
+      · exact waitOK_of_nonneg A p h0
+      · have hneg : -((((p.burst : Rat) - s.tokens) * Ki p - advMaxEl A p s) * K p) < 0 := by grind
+        unfold waitOK
+        simp only [hneg, if_true]
+        rw [dft_eq]
+        have : - -((((p.burst : Rat) - s.tokens) * Ki p - advMaxEl A p s) * K p) * Ki p
+            = ((p.burst : Rat) - s.tokens) * Ki p - advMaxEl A p s := by
+          have h1 : ∀ y : Rat, - -(y * K p) * Ki p = y * (Ki p * K p) := by intro y; grind
+          rw [h1, Ki_mul_K hL]; grind
+        rw [this]
+        exact hres
+    exact waitOK_mono hA hL (by grind) hw
+  · -- not full: everything that elapsed was credited
+    unfold advTok; rw [he]
+    split
+    · exact waitOK_of_nonneg A p (by grind)
+    · exact waitOK_mono hA hL (by grind) hI.2
+
+end
+
 end KG.Lemmas.TokenBucket
